@@ -1,20 +1,6 @@
 package main
-import ("fmt";"os";"strings";"time";"strconv";"github.com/gogpu/naga";"github.com/gogpu/naga/spirv";"github.com/gogpu/naga/hlsl";"github.com/gogpu/naga/msl";"github.com/gogpu/naga/glsl";"github.com/gogpu/naga/dxil")
-func main(){
- kind:=os.Args[1]
- for _,a:=range os.Args[2:]{ n,_:=strconv.Atoi(a)
-  var src string
-  switch kind{
-  case "idx": src="fn f(a: array<i32, 4>) -> i32 { return a" + strings.Repeat("[0]", n) + "; }"
-  }
-  tm:=func(name string,f func()){t:=time.Now();f();fmt.Printf("%d %s %v\n",n,name,time.Since(t))}
-  t:=time.Now(); a2,err:=naga.Parse(src); fmt.Println(n,"parse",time.Since(t),err); if err!=nil{continue}
-  t=time.Now(); m,err:=naga.LowerWithSource(a2,src); fmt.Println(n,"lower",time.Since(t),err); if err!=nil{continue}
-  tm("validate",func(){naga.Validate(m)})
-  tm("spirv",func(){_,e:=spirv.NewBackend(spirv.Options{Version:spirv.Version1_3}).Compile(m);if e!=nil{fmt.Println(e.Error())}})
-  tm("msl",func(){o:=msl.DefaultOptions();o.FakeMissingBindings=true;_,_,e:=msl.Compile(m,o);if e!=nil{fmt.Println(e.Error())}})
-  tm("glsl",func(){_,_,e:=glsl.Compile(m,glsl.Options{LangVersion:glsl.Version{Major:4,Minor:50}});if e!=nil{fmt.Println(e.Error())}})
-  tm("dxil",func(){_,e:=dxil.Compile(m,dxil.DefaultOptions());if e!=nil{fmt.Println(e.Error())}})
-  tm("hlsl",func(){o:=hlsl.DefaultOptions();o.FakeMissingBindings=true;_,_,e:=hlsl.Compile(m,o);if e!=nil{fmt.Println(e.Error())}})
- }
+import ("fmt";"os";"github.com/gogpu/naga";"github.com/gogpu/naga/hlsl";"github.com/gogpu/naga/msl")
+func main(){ b,_:=os.ReadFile(os.Args[1]); ast,err:=naga.Parse(string(b)); if err!=nil{panic(err)}; m,err:=naga.LowerWithSource(ast,string(b)); if err!=nil{panic(err)}
+ o:=hlsl.DefaultOptions(); o.FakeMissingBindings=true; o.RestrictIndexing=true; s,_,err:=hlsl.Compile(m,o); fmt.Println(s,err)
+ if len(os.Args)>2 { mo:=msl.DefaultOptions(); mo.FakeMissingBindings=true; mo.BoundsCheckPolicies=msl.BoundsCheckPolicies{Index:msl.BoundsCheckRestrict,Buffer:msl.BoundsCheckRestrict}; t,_,err:=msl.Compile(m,mo); fmt.Println(t,err)}
 }
